@@ -968,4 +968,4 @@ LEVEL_TEXT = (
     "comment with the planter's knowledge.  Complete within those bounds; no sampling."
 )
 LEVEL_NOTE = "Trusted: CPython, Babel's and Lingua's own Python extractors, the planter (its templates are compiled by Mako as a self-check)."
-READY = False
+READY = True
